@@ -505,7 +505,8 @@ type c16Flow struct {
 	ss  c16Sites
 	// write-only buffers: local variables made by bytes.NewBuffer whose every use is a write
 	writeOnly map[types.Object]bool
-	decodes   []c16Decode // decode calls whose count is bound to a variable
+	pure      map[*kit.Func]bool // same-package helpers evaluated inline
+	decodes   []c16Decode        // decode calls whose count is bound to a variable
 }
 
 func (fl *c16Flow) intern(a kit.Affine) string {
@@ -2084,16 +2085,43 @@ func (fl *c16Flow) isWriteOnly(e ast.Expr) bool {
 
 func c16Writer(c *kit.Ctx, r5 *kit.Rule) {
 	const qEncode = "github.com/dim13/cobs.Encode"
-	n := 0
-	for _, f := range c.P.Funcs("client") {
+	funcs := c.P.Funcs("client")
+	// functions that encode, directly or through same-package callees (depth <= 2)
+	encodes := map[*kit.Func]bool{}
+	for _, f := range funcs {
 		if f.Body == nil {
 			continue
 		}
-		var enc []*ast.CallExpr
 		for _, call := range f.AllCalls(false) {
 			if kit.CallIs(f.Info(), call, qEncode) {
-				enc = append(enc, call)
+				encodes[f] = true
 			}
+		}
+	}
+	if len(encodes) == 0 {
+		c.Fatalf("no function of package client calls %s (frame writer lost)", qEncode)
+	}
+	direct := map[*kit.Func]bool{}
+	for f := range encodes {
+		direct[f] = true
+	}
+	for depth := 0; depth < 2; depth++ {
+		for _, f := range funcs {
+			if f.Body == nil || encodes[f] {
+				continue
+			}
+			for _, call := range f.AllCalls(false) {
+				if cf := f.CalleeFunc(call); cf != nil && encodes[cf] {
+					encodes[f] = true
+				}
+			}
+		}
+	}
+	n := 0
+	connected := map[*kit.Func]bool{}
+	for _, f := range funcs {
+		if f.Body == nil || !encodes[f] {
+			continue
 		}
 		recv := c16RecvVar(f)
 		var writes []*ast.CallExpr
@@ -2104,16 +2132,23 @@ func c16Writer(c *kit.Ctx, r5 *kit.Rule) {
 				}
 			}
 		}
-		if len(enc) == 0 {
+		if len(writes) == 0 {
 			continue
 		}
 		c.Analysed(f)
 		n++
-		o := r5.Ob(f, f.Node(), "device write", "every non-error exit has handed to the device: zero bytes followed by Encode(<whole payload parameter>)")
-		if recv == nil || len(writes) == 0 {
-			o.Violation("%s encodes a frame but never writes to the wrapped device", f.Name)
-			continue
+		connected[f] = true
+		for _, call := range f.AllCalls(false) {
+			if cf := f.CalleeFunc(call); cf != nil && encodes[cf] {
+				connected[cf] = true
+				for _, c2 := range cf.AllCalls(false) {
+					if cf2 := cf.CalleeFunc(c2); cf2 != nil && encodes[cf2] {
+						connected[cf2] = true
+					}
+				}
+			}
 		}
+		o := r5.Ob(f, f.Node(), "device write", "every non-error exit has handed to the device: zero bytes followed by Encode(<whole payload parameter>)")
 		var payload *types.Var
 		for _, p := range f.Params() {
 			if c16IsByteSlice(p.Type()) {
@@ -2130,8 +2165,15 @@ func c16Writer(c *kit.Ctx, r5 *kit.Rule) {
 		}
 		c16JudgeWriter(c, f, o, payload, writes, qEncode)
 	}
+	for _, f := range funcs {
+		if direct[f] && !connected[f] {
+			r5.Ob(f, f.Node(), "device write", "every non-error exit has handed to the device: zero bytes followed by Encode(<whole payload parameter>)").
+				Undecided("%s encodes a frame but no method that writes to a wrapped device is seen to use it", f.Name)
+			n++
+		}
+	}
 	if n == 0 {
-		c.Fatalf("no function of package client calls %s (frame writer lost)", qEncode)
+		c.Fatalf("no method of package client that writes to an interface-typed device field uses %s (frame writer lost)", qEncode)
 	}
 }
 
@@ -2253,6 +2295,13 @@ func c16JudgeWriter(c *kit.Ctx, f *kit.Func, o *kit.Ob, payload *types.Var, writ
 			return k, m
 		}
 		call, ok := e.(*ast.CallExpr)
+		if ok {
+			if h := f.CalleeFunc(call); h != nil && h.Body != nil && h != f && h.Pkg == f.Pkg {
+				if k, m, is := c16FrameHelper(c, f, h, call, payload, qEncode); is {
+					return k, m
+				}
+			}
+		}
 		if ok {
 			if bi, isB := kit.Callee(info, call).(*types.Builtin); isB && bi.Name() == "append" && len(call.Args) == 2 && call.Ellipsis.IsValid() {
 				z, rec := allZero(call.Args[0])
@@ -2377,4 +2426,139 @@ func runC16(c *kit.Ctx) {
 		}
 	}
 	c16Writer(c, r5)
+}
+
+// c16FrameHelper judges a same-package function that builds the frame for
+// the writer: it must be given the whole payload and return, on every path,
+// zeros followed by Encode(<its parameter>): either one of the shapes the
+// writer itself may use, or make([]byte, K+len(enc)) + copy(frame[K:], enc).
+func c16FrameHelper(c *kit.Ctx, f, h *kit.Func, call *ast.CallExpr, payload *types.Var, qEncode string) (kind, msg string, is bool) {
+	info := h.Info()
+	var hp *types.Var
+	hi := -1
+	for i, p := range h.Params() {
+		if c16IsByteSlice(p.Type()) {
+			if hp != nil {
+				return "", "", false
+			}
+			hp, hi = p, i
+		}
+	}
+	if hp == nil || hi >= len(call.Args) {
+		return "", "", false
+	}
+	hasEnc := false
+	for _, c2 := range h.AllCalls(false) {
+		if kit.CallIs(info, c2, qEncode) {
+			hasEnc = true
+		}
+	}
+	if !hasEnc {
+		return "", "", false
+	}
+	c.Analysed(h)
+	if kit.ObjOf(f.Info(), call.Args[hi]) != payload {
+		return "undec", fmt.Sprintf("%s is given %s, not the payload parameter %s", h.Name, f.Str(call.Args[hi]), payload.Name()), true
+	}
+	encOf := func(e ast.Expr) bool { // e is Encode(<hp>), possibly through a single-assignment local
+		cc, ok := ast.Unparen(c16Resolve(h, e)).(*ast.CallExpr)
+		return ok && kit.CallIs(info, cc, qEncode) && len(cc.Args) == 1 && kit.ObjOf(info, cc.Args[0]) == hp
+	}
+	var rets []*ast.ReturnStmt
+	ast.Inspect(h.Body, func(n ast.Node) bool {
+		if _, ok := n.(*ast.FuncLit); ok {
+			return false
+		}
+		if r, ok := n.(*ast.ReturnStmt); ok {
+			rets = append(rets, r)
+		}
+		return true
+	})
+	if len(rets) == 0 {
+		return "undec", h.Name + " has no return statement", true
+	}
+	for _, r := range rets {
+		if len(r.Results) != 1 {
+			return "undec", fmt.Sprintf("%s returns %d values", h.Name, len(r.Results)), true
+		}
+		e := ast.Unparen(c16Resolve(h, r.Results[0]))
+		if encOf(e) {
+			continue
+		}
+		if ap, ok := e.(*ast.CallExpr); ok {
+			if bi, isB := kit.Callee(info, ap).(*types.Builtin); isB && bi.Name() == "append" && len(ap.Args) == 2 && ap.Ellipsis.IsValid() && encOf(ap.Args[1]) {
+				if cl, ok := ast.Unparen(c16Resolve(h, ap.Args[0])).(*ast.CompositeLit); ok && c16IsByteSlice(info.TypeOf(cl)) {
+					zeros := true
+					for _, el := range cl.Elts {
+						if v, ok := kit.ConstInt(info, el); !ok || v != 0 {
+							zeros = false
+						}
+					}
+					if zeros {
+						continue
+					}
+				}
+				return "undec", fmt.Sprintf("%s: the prefix %s is not a literal of zero bytes", h.Name, h.Str(ap.Args[0])), true
+			}
+			// frame := make([]byte, K+len(enc)); copy(frame[K:], enc); return frame
+			if bi, isB := kit.Callee(info, ap).(*types.Builtin); isB && bi.Name() == "make" && len(ap.Args) == 2 {
+				fv := kit.ObjOf(info, r.Results[0])
+				if fv == nil {
+					return "undec", h.Name + " returns make(...) directly", true
+				}
+				size, ok := kit.AffineOf(info, ap.Args[1])
+				if !ok {
+					return "undec", fmt.Sprintf("%s: the size %s of the frame is not linear", h.Name, h.Str(ap.Args[1])), true
+				}
+				// uses of the frame variable: exactly one copy(frame[K:], enc), the return, its definition
+				copies, other := 0, false
+				var K int64
+				var src ast.Expr
+				ast.Inspect(h.Body, func(n ast.Node) bool {
+					switch x := n.(type) {
+					case *ast.CallExpr:
+						if b2, isB := kit.Callee(info, x).(*types.Builtin); isB && b2.Name() == "copy" && len(x.Args) == 2 {
+							if se, ok := ast.Unparen(x.Args[0]).(*ast.SliceExpr); ok && kit.ObjOf(info, se.X) == fv && se.High == nil && !se.Slice3 {
+								k := int64(0)
+								if se.Low != nil {
+									kk, isC := kit.ConstInt(info, se.Low)
+									if !isC {
+										other = true
+									}
+									k = kk
+								}
+								copies++
+								K, src = k, x.Args[1]
+								return false
+							}
+						}
+					case *ast.Ident:
+						if info.Uses[x] == fv {
+							par := c.P.Parent(h.File, x)
+							if _, isRet := par.(*ast.ReturnStmt); !isRet {
+								other = true
+							}
+						}
+					}
+					return true
+				})
+				if copies != 1 || other || src == nil || !encOf(src) {
+					return "undec", fmt.Sprintf("%s: the frame buffer is filled in a way the rule does not follow", h.Name), true
+				}
+				so := kit.ObjOf(info, src)
+				if so == nil {
+					return "undec", fmt.Sprintf("%s: the encoded bytes are not held in a variable", h.Name), true
+				}
+				want := kit.AffLen(so).AddK(K)
+				if d, isC := size.Sub(want).Const(); !isC {
+					return "undec", fmt.Sprintf("%s: cannot relate the frame size %s to %d + len(%s)", h.Name, h.Str(ap.Args[1]), K, so.Name()), true
+				} else if d < 0 {
+					return "viol", fmt.Sprintf("%s: the frame buffer has %d byte(s) less than %d + len(%s): the end of the encoded frame (its terminator) is cut off", h.Name, -d, K, so.Name()), true
+				}
+				continue // zeros (K in front, d behind) around the whole encoded frame
+			}
+		}
+		return "undec", fmt.Sprintf("%s returns %s, a shape the rule does not recognise", h.Name, h.Str(r.Results[0])), true
+	}
+	return "ok", "", true
 }
